@@ -113,6 +113,10 @@ def check(ctx):
     ctx.shared("C02", lambda c_: _c02.open_rule(c_, c_.rule("R1", "[shared with C02] a rewritten key / certificate file holds the new content only (opened truncating, never appended)")))
     from . import c03 as _c03
     ctx.shared("C03", _c03.no_discarded_results)     # "failure whenever any step failed": no step's error is dropped unexamined
+    # "after a failure it tries again": the retry is scheduled from certificate_files_exists — a half-installed pair (key without
+    # certificate, after a failure between the two writes) must read as "not installed", i.e. check_files means EVERY file exists
+    from .storage_common import check_files_rules as _cfr
+    ctx.shared("C06", lambda c_: _cfr(c_, c_.rule("R1", "[shared with C06] check_files answers true only when every listed file exists: a lone key file does not pass for an installed certificate")))
     cargo = tomllib.load(open(os.path.join(ctx.repo, "Cargo.toml"), "rb"))
     ctx.notes.append("release profile panic = %s" % cargo.get("profile", {}).get("release", {}).get("panic", "unwind"))
     R1 = ctx.rule("R1", "every panic source reachable from MainEventLoop::run is discharged (A1-A5) or allow-listed with a reason; a new one is a violation")
